@@ -94,7 +94,7 @@ def r3_confined(cx):
             if d[0] == "stmt" and d[3]["k"] == "assign" and d[3]["rv"]["k"] == "agg":
                 agg = d[3]["rv"]
         ok_variant = agg is not None and agg.get("adt", "").endswith("SeekFrom") and agg.get("variant") == "Start"
-        cx.ob("R3", "R3/seek-start", ok_variant, f, "the seek is SeekFrom::Start(..) (absolute): %s" % (agg and (agg.get("adt"), agg.get("variant"))), ln=st.get("ln"))
+        cx.ob("R3", "R3/seek-start", ok_variant, f, "the seek is SeekFrom::Start(..) (absolute): %s" % ((agg.get("adt"), agg.get("variant")) if agg else None,), ln=st.get("ln"))
         if ok_variant:
             oc = [callee_str(t) for _, t in b.origin_calls(agg["fields"][0])]
             has_go = any("global_offset" in c for c in oc)
@@ -104,8 +104,10 @@ def r3_confined(cx):
                   "seek target = pack_offset (from PackOffsetsIter) + manifest reader global_offset(): global_offset=%s iter=%s add=%s" % (has_go, has_iter, adds), ln=st.get("ln"))
     if len(writes) == 1:
         wi, wt = writes[0]
-        ok = call_is(wt, r"ser_write::<.*PackInfo>")
-        cx.ob("R3", "R3/write-is-packinfo", ok, f, "the single write is ser_write::<PackInfo> (one CRC block): %s" % callee_str(wt), ln=wt.get("ln"))
+        import streams
+        wty = streams.written_type(b, wt)
+        ok = call_is(wt, r"::ser_write$") and bool(wty) and wty.endswith("pack_info::PackInfo")
+        cx.ob("R3", "R3/write-is-packinfo", ok, f, "the single write is ser_write(&PackInfo) (one CRC block): %s of %s" % (callee_str(wt), wty), ln=wt.get("ln"))
         # the written value is the parsed pack_info
         pi = b.local_named("pack_info")
         src = b.origins(wt["args"][1], through_calls=False)
@@ -145,9 +147,8 @@ def _derives_local(b, op, locs):
         for d in b.defs().get(l, []):
             if d[0] == "stmt" and d[3]["k"] == "assign":
                 rv = d[3]["rv"]
-                for k in ("op", "a", "b"):
-                    if k in rv:
-                        st.append(op_base_local(rv[k]))
+                for o in rv_operands(rv):
+                    st.append(op_base_local(o))
                 if "pl" in rv:
                     st.append(rv["pl"]["l"])
     return False
@@ -166,9 +167,8 @@ def _has_add(b, op):
                 rv = d[3]["rv"]
                 if rv["k"] == "bin" and rv["op"] in ("Add", "AddWithOverflow"):
                     return True
-                for k in ("op", "a", "b"):
-                    if k in rv:
-                        st.append(op_base_local(rv[k]))
+                for o in rv_operands(rv):
+                    st.append(op_base_local(o))
                 if "pl" in rv:
                     st.append(rv["pl"]["l"])
     return False
